@@ -123,4 +123,38 @@ def classify (F : Fmt) (I : IntTy) (x : FVal) (fuel : Nat) : Option Defect :=
   | .diverges => some .hang
   | _ => some .hang
 
+
+/-- the integer type of `C.digits` digits against which the property's range clause is judged -/
+def compTy (C : Comp) : IntTy := ⟨C.digits + 1, true⟩
+
+/-- does the same evaluation with range-checked arithmetic (every `+ - *` and every `static_cast<int_t>(floating)`
+whose value leaves `[lowest, max]` is an error, as it is undefined for a built-in component) overflow? -/
+def checkedOverflows (F : Fmt) (C : Comp) (x : FVal) (fuel : Nat) : Bool :=
+  match makeFractionC F { C with arith := .ub, fcvt := .ub } x fuel with
+  | .ub _ => true
+  | _ => false
+
+/-- the defect class of an input for a component type that is a CNL number: the same classes, read off
+the generic model.  Where a built-in component executes undefined behaviour in the search (the arithmetic
+leaves the component's range) an `overflow_integer` traps / throws, a saturating one carries on with the
+clamped value, a `wide_integer` / `elastic_integer` silently leaves its digit count (`ill` = beyond what the
+model predicts): all of these are the overflow-in-the-search class, decided by `checkedOverflows` for the
+component kinds that do not stop (`sat`, `keep`). -/
+def classifyC (F : Fmt) (C : Comp) (x : FVal) (fuel : Nat) : Option Defect :=
+  if inDomain (compTy C) x = false then none else
+  let ovf : Defect := if floorIsMax (compTy C) x then .ubFloorMax else .ubSearch
+  match makeFractionC F C x fuel with
+  | .ok (fr, _) =>
+    match violated (compTy C) x fr with
+    | none => none
+    | some c =>
+      if (C.arith = .sat ∨ C.arith = .keep) ∧ checkedOverflows F C x fuel then some ovf
+      else if c = .exact then
+        (if fCmp .eq (fracToFC F C fr) x then some .notExactRoundTrip else some (.clause .exact))
+      else some (.clause c)
+  | .unreachable _ =>
+    if (C.arith = .sat ∨ C.arith = .keep) ∧ checkedOverflows F C x fuel then some ovf else some .assertion
+  | .diverges => some .hang
+  | _ => some ovf
+
 end Cnl.MakeFractionSpec
